@@ -201,7 +201,7 @@ def gen_cases(rec, rng, tier):
         other = disjoint(rng, R, other)
         for eps in ('', 'ε'):
             yield {'cls': cls, 'ref1': R, 'ref2': other, 'eps': eps, 'gen': rng.choice(['default', 'explicit', 'collide_default']), 'parsed': eps != '' and rng.random() < 0.5}
-    for _ in range(1200 if thorough else 400):
+    for _ in range(4000 if thorough else 400):
         k = rng.randint(1, 2)
         n1, n2 = rng.randint(1, 5), rng.randint(1, 5)
         style = rng.choice(['q_names', 'random_names', 'mixed'])
